@@ -77,7 +77,7 @@ pub fn eval_src(s: &Src, inp: &Inputs, o: Opts) -> Option<Tl> {
       t.extend(inp.hot[*i].clone());
       cut(t)
     }
-    Src::Interval(_) | Src::Timer(..) | Src::CountingIter(_) | Src::CountingStream(_) | Src::SilentStream => return None,
+    Src::Interval(_) | Src::Timer(..) | Src::CountingIter(_) | Src::CountingStream(_) | Src::SilentStream | Src::CountingTryStream(_) => return None,
   })
 }
 
